@@ -292,6 +292,8 @@ def sort_of(kind):
         return z3.RealSort()
     if kind.startswith("ref"):
         return Ref
+    if kind == "np":
+        return z3.DeclareSort("NP")      # opaque optlang / numpy terms (pyvc.npalg) held in a container
     raise ValueError(kind)
 
 
@@ -306,6 +308,9 @@ def wrap(term, kind):
         return VRef(term, kind[4:])
     if kind == "real":
         return VReal(0, term)       # containers hold finite reals
+    if kind == "np":
+        from .npalg import VNp
+        return VNp(term)
     raise ValueError(kind)
 
 
@@ -339,6 +344,9 @@ def unwrap(v, kind):
             return v.v
         if isinstance(v, VInt):
             return z3.ToReal(v.t)
+    elif kind == "np":
+        if type(v).__name__ == "VNp":
+            return v.t
     raise Unsupported(f"cannot store {v!r} as {kind}")
 
 
